@@ -372,7 +372,7 @@ func runCheck(e *env, p *propSpec, tier string) int {
 			rp.Opt = opt
 		}
 		rr, o := e.runOne(rp)
-		if rr == nil || !hasClause(rr, f.v.Clause) {
+		if rr == nil || !hasViolation(rr, f.v.Clause, f.v.Site) {
 			msg := "worker produced no result"
 			if rr != nil {
 				msg = fmt.Sprintf("replay gave clauses %v trace %s (original %s)", clauses(rr), rr.TraceHash, f.res.TraceHash)
@@ -388,8 +388,8 @@ func runCheck(e *env, p *propSpec, tier string) int {
 		if reported > 1 {
 			minBudget = 0 // only the first violation is minimised; the others are confirmed by replay
 		}
-		best, note := minimise(e, *rr, f.v.Clause, minBudget)
-		v := pickViolation(&best, f.v.Clause)
+		best, note := minimise(e, *rr, f.v.Clause, f.v.Site, minBudget)
+		v := pickViolation(&best, f.v.Clause, f.v.Site)
 		pth := writeReplay(p, f.res.Params.Seed, best, v, note)
 		fmt.Printf("VIOLATION property=%s replay=%s\n", p.ID, pth)
 		fmt.Printf("  clause=%s site=%s seed=%d scenario=%s\n  %s\n", v.Clause, v.Site, f.res.Params.Seed, f.res.Params.Scenario, trimLines(v.Detail, 6))
@@ -456,9 +456,13 @@ func firstFatal(log string) string {
 	return log[i:]
 }
 
-func hasClause(r *rt.Result, clause string) bool {
+// hasViolation: the run shows a violation of that clause at that site ("" =
+// any site). Replay confirmation and minimisation keep clause AND site: a run
+// that only shows another site of the same clause (possibly a recorded
+// finding) is not the same violation.
+func hasViolation(r *rt.Result, clause, site string) bool {
 	for _, v := range r.Violations {
-		if v.Clause == clause {
+		if v.Clause == clause && (site == "" || v.Site == site) {
 			return true
 		}
 	}
@@ -473,13 +477,18 @@ func clauses(r *rt.Result) []string {
 	return c
 }
 
-func pickViolation(r *rt.Result, clause string) rt.Violation {
+func pickViolation(r *rt.Result, clause, site string) rt.Violation {
+	for _, v := range r.Violations {
+		if v.Clause == clause && v.Site == site {
+			return v
+		}
+	}
 	for _, v := range r.Violations {
 		if v.Clause == clause {
 			return v
 		}
 	}
-	return rt.Violation{Clause: clause}
+	return rt.Violation{Clause: clause, Site: site}
 }
 
 // ---------------------------------------------------------------- replay files
@@ -548,12 +557,12 @@ func replayFile(e *env, pth string) int {
 		fmt.Fprintf(os.Stderr, "vcheck: replay produced no result:\n%s\n", o.log)
 		return 2
 	}
-	if hasClause(r, rf.Clause) {
+	if hasViolation(r, rf.Clause, rf.Site) {
 		same := "identical"
 		if rf.Trace != "" && r.TraceHash != rf.Trace {
 			same = "DIFFERENT (" + r.TraceHash + " vs recorded " + rf.Trace + ")"
 		}
-		v := pickViolation(r, rf.Clause)
+		v := pickViolation(r, rf.Clause, rf.Site)
 		fmt.Printf("VIOLATION property=%s replay=%s\n  reproduced clause=%s site=%s; executed schedule %s\n  %s\n", rf.Property, pth, v.Clause, v.Site, same, trimLines(v.Detail, 8))
 		for _, l := range r.PlanLog {
 			fmt.Println("  plan:", l)
@@ -628,7 +637,7 @@ func writeEvidence(e *env, p *propSpec, tier string, a *agg, nViol int, runSecs 
 
 // ---------------------------------------------------------------- minimiser
 
-func minimise(e *env, start rt.Result, clause string, budget time.Duration) (rt.Result, string) {
+func minimise(e *env, start rt.Result, clause, site string, budget time.Duration) (rt.Result, string) {
 	deadline := time.Now().Add(budget)
 	best := start
 	tries, wins := 0, 0
@@ -663,7 +672,7 @@ func minimise(e *env, start rt.Result, clause string, budget time.Duration) (rt.
 		}
 		tries += len(cands)
 		for _, r := range res {
-			if r != nil && r.Harness == "" && hasClause(r, clause) {
+			if r != nil && r.Harness == "" && hasViolation(r, clause, site) {
 				// adopt; normalise tapes to what was actually consumed
 				best = *r
 				wins++
